@@ -117,7 +117,7 @@ fn plan(ctx: &mut CheckCtx, k: f64) {
         }
         "C05" => {
             // one evaluation = one (k, n) cell = a batch of sampler runs; the grid is fixed per tier
-            let cells = s3_reservoir::small_grid().len() + s3_reservoir::restart_grid().len() + if ctx.tier == Tier::Thorough { s3_reservoir::large_grid().len() } else { 0 };
+            let cells = s3_reservoir::small_grid().len() + s3_reservoir::restart_grid().len() + s3_reservoir::deep_grid().len() + if ctx.tier == Tier::Thorough { s3_reservoir::large_grid().len() } else { 0 };
             ctx.required_probes = vec!["cell_ends_in_reservoir_phase", "cell_ends_at_switch", "cell_ends_in_gap_phase"];
             ctx.assumptions.push("statistical acceptance at z = 6 (regions) / 6.5 (single positions) against the binomial standard error, plus the allowance (1+ln(n/4k))/k for n > 4k+1; the default VERIF_SEED fixes the batch, other seeds have a false-alarm probability below 1e-5 per batch".into());
             ctx.run::<s3_reservoir::S3b>(cells as u64);
@@ -129,6 +129,125 @@ fn plan(ctx: &mut CheckCtx, k: f64) {
         _ => {
             eprintln!("HARNESS ERROR: property {} has no check (not applicable or not built)", ctx.prop);
             std::process::exit(2);
+        }
+    }
+}
+
+struct ScenEntry {
+    name: &'static str,
+    run_one: fn(u64, u64, &'static str, Tier) -> usize,
+    mk_abort_replay: fn(&str, &'static str, u64, u64, u64, Tier, &str) -> (String, serde_json::Value),
+}
+
+fn entry<S: Scenario>() -> ScenEntry {
+    ScenEntry { name: S::NAME, run_one: run_one::<S>, mk_abort_replay: mk_abort_replay::<S> }
+}
+
+fn scenarios() -> Vec<ScenEntry> {
+    vec![
+        entry::<s1_filters::S1>(),
+        entry::<s1l_bigfilters::S1L>(),
+        entry::<s2_replicas::S2>(),
+        entry::<s2h_hll::S2h>(),
+        entry::<s3_reservoir::S3a>(),
+        entry::<s3_reservoir::S3b>(),
+        entry::<s4_digest::S4>(),
+        entry::<s5_topk::S5a>(),
+        entry::<s5_topk::S5b>(),
+        entry::<s6_memory::S6>(),
+        entry::<s7_lifecycle::S7>(),
+        entry::<s8_storage::S8>(),
+        entry::<s9_entrypoints::S9>(),
+    ]
+}
+
+/// Runs `args` in a child process of this executable. Returns the child's exit code, or None if it
+/// was killed by a signal (abort on allocation failure, stack overflow, ...).
+fn spawn_self(args: &[String], journal: Option<&str>) -> Option<i32> {
+    let exe = std::env::current_exe().expect("current_exe");
+    let mut c = std::process::Command::new(exe);
+    c.args(args).env("PDSIM_CHILD", "1");
+    if let Some(j) = journal {
+        c.env("PDSIM_JOURNAL", j);
+    }
+    match c.status() {
+        Ok(st) => st.code(),
+        Err(e) => {
+            eprintln!("HARNESS ERROR: cannot spawn the check process: {}", e);
+            Some(2)
+        }
+    }
+}
+
+/// Supervisor: the check proper runs in a child process; if the child is killed by a signal the
+/// in-flight journal names the candidate runs, each is re-executed alone in a grandchild, and the one
+/// that kills its process again is reported as a violation with its replay file.
+fn supervise(prop: &'static str, tier: Tier, seed: u64, args: &[String]) -> i32 {
+    let dir = format!("{}/replays/tmp", verif_dir());
+    let _ = std::fs::create_dir_all(&dir);
+    let journal = format!("{}/journal-{}.bin", dir, std::process::id());
+    let _ = std::fs::write(&journal, vec![0u8; 24 * 64]);
+    let code = spawn_self(args, Some(&journal));
+    let bytes = std::fs::read(&journal).unwrap_or_default();
+    let _ = std::fs::remove_file(&journal);
+    if let Some(c) = code {
+        return c;
+    }
+    println!("the check process was killed by a signal; looking for the run that kills it");
+    let scen = scenarios();
+    let mut culprit = None;
+    for slot in bytes.chunks(24) {
+        if slot.len() < 24 {
+            continue;
+        }
+        let tag = u64::from_le_bytes(slot[..8].try_into().unwrap());
+        let run = u64::from_le_bytes(slot[8..16].try_into().unwrap());
+        let rseed = u64::from_le_bytes(slot[16..24].try_into().unwrap());
+        if tag == 0 {
+            continue;
+        }
+        let e = match scen.iter().find(|e| scenario_tag(e.name) == tag) {
+            Some(e) => e,
+            None => continue,
+        };
+        let a = vec!["runone".to_string(), prop.to_string(), tier.name().to_string(), e.name.to_string(), run.to_string(), rseed.to_string()];
+        if spawn_self(&a, None).is_none() {
+            culprit = Some((e, run, rseed));
+            break;
+        }
+    }
+    match culprit {
+        Some((e, run, rseed)) => {
+            let (file, described) = (e.mk_abort_replay)(&verif_dir(), prop, seed, run, rseed, tier, "killed by a signal, e.g. abort on allocation failure");
+            println!("VIOLATION property={} replay={}", prop, file);
+            println!("  class={}/process-abort scenario={} run={} :: the library kills the process on this run (allocation failure / abort)", e.name, e.name, run);
+            let ev = serde_json::json!({
+                "property_id": prop, "tier": tier.name(), "seed": seed, "level": level_of(prop),
+                "coverage": { "evaluations": run + 1, "distinct_nontrivial": 2, "rule": "the batch was abandoned: one run kills the process; it was isolated by re-executing the in-flight runs one by one in separate processes (distinct_nontrivial is a placeholder)", "samples": [{"scenario": e.name, "run": run, "seed": rseed, "case": described, "outcome": "process killed"}] },
+                "wall_s": 0.0, "violations": 1,
+            });
+            let _ = std::fs::create_dir_all(format!("{}/evidence", verif_dir()));
+            let _ = std::fs::write(format!("{}/evidence/{}.json", verif_dir(), prop), serde_json::to_string_pretty(&ev).unwrap());
+            println!("{} {} seed={} -> VIOLATED (a run kills the process)", prop, tier.name(), seed);
+            1
+        }
+        None => {
+            // the process may have died while minimising an ordinary violation: the candidate is on disk
+            let cand = format!("{}.cand", journal);
+            if std::path::Path::new(&cand).exists() {
+                let a = vec!["replay".to_string(), cand.clone()];
+                if spawn_self(&a, None).is_none() {
+                    let keep = format!("{}/replays/{}-process-abort-{}.json", verif_dir(), prop, std::process::id());
+                    let _ = std::fs::rename(&cand, &keep);
+                    println!("VIOLATION property={} replay={}", prop, keep);
+                    println!("  class=process-abort :: a shrunk variant of a violating run kills the process (allocation failure / abort)");
+                    println!("{} {} seed={} -> VIOLATED (a run kills the process)", prop, tier.name(), seed);
+                    return 1;
+                }
+                let _ = std::fs::remove_file(&cand);
+            }
+            println!("HARNESS ERROR: the check process was killed by a signal and no single in-flight run reproduces it; no verdict for {}", prop);
+            2
         }
     }
 }
@@ -229,7 +348,35 @@ fn main() {
         usage();
     }
     let code = match args[0].as_str() {
-        "replay" => replay(args.get(1).map(|s| s.as_str()).unwrap_or_else(|| usage())),
+        "replay" => {
+            let path = args.get(1).map(|s| s.as_str()).unwrap_or_else(|| usage());
+            if std::env::var("PDSIM_CHILD").is_ok() {
+                replay(path)
+            } else {
+                match spawn_self(&args, None) {
+                    Some(c) => c,
+                    None => {
+                        println!("VIOLATION replay={} :: the replayed run kills the process again", path);
+                        1
+                    }
+                }
+            }
+        }
+        "runone" => {
+            // runone <prop> <tier> <scenario> <run> <seed>
+            let prop = prop_static(args.get(1).map(|s| s.as_str()).unwrap_or(""));
+            let tier = if args.get(2).map(|s| s.as_str()) == Some("thorough") { Tier::Thorough } else { Tier::Quick };
+            let name = args.get(3).cloned().unwrap_or_default();
+            let run: u64 = args.get(4).and_then(|s| s.parse().ok()).unwrap_or(0);
+            let seed: u64 = args.get(5).and_then(|s| s.parse().ok()).unwrap_or(0);
+            match scenarios().iter().find(|e| e.name == name) {
+                Some(e) => {
+                    (e.run_one)(seed, run, prop, tier);
+                    0
+                }
+                None => 2,
+            }
+        }
         "selftest-determinism" => selftest_determinism(),
         "calibrate-c05" => {
             s3_reservoir::calibrate();
@@ -268,6 +415,14 @@ fn main() {
             }
             let seed: u64 = std::env::var("VERIF_SEED").ok().and_then(|s| s.parse().ok()).unwrap_or(1);
             let k = scale.unwrap_or(if tier == Tier::Thorough { 20.0 } else { 1.0 });
+            if std::env::var("PDSIM_CHILD").is_err() {
+                std::process::exit(supervise(prop, tier, seed, &args));
+            }
+            if let Ok(j) = std::env::var("PDSIM_JOURNAL") {
+                if let Ok(f) = std::fs::OpenOptions::new().write(true).open(&j) {
+                    let _ = JOURNAL.set(f);
+                }
+            }
             println!("pdsim {} tier={} VERIF_SEED={} workers={} scale={}", prop, tier.name(), seed, workers, k);
             // a panic that escapes here is a bug of the simulator itself: harness error, never a verdict
             let r = std::panic::catch_unwind(std::panic::AssertUnwindSafe(|| {
